@@ -39,7 +39,7 @@ def jobs_for_aspect(aspect):
             a.pop("_tier", None)
             a.pop("_core", None)
             j.append(X(r["entry"], a, "%s %s: %s" % (r["indicator"], aspect, r["bound"]), tier=tier, core=core,
-                       cost=r.get("cost", 5), timeout=r.get("timeout", 900),
+                       cost=r.get("cost", 5), timeout=r.get("timeout"),
                        encodes=["src/indicators/*.rs: %s::{init,next}" % r["indicator"], "src/helpers/methods.rs: MA::init, MAInstance::next",
                                 "src/methods/*.rs (inner methods)", "src/core/indicator/result.rs", "src/core/action.rs", "src/methods/cross.rs"]))
     return j
